@@ -148,7 +148,7 @@ func errorRoot(t *Term) string {
 				t = t.Args[0]
 				continue
 			}
-			if t.Name == "errors.New" || t.Name == "fmt.Errorf" {
+			if t.Name == "errors.New" || t.Name == "fmt.Errorf" || t.Name == "errors.Errorf" {
 				return "new-error"
 			}
 			return ""
@@ -446,4 +446,18 @@ func pkgOf(f *types.Func) string {
 		return f.Pkg().Path()
 	}
 	return ""
+}
+
+// LoopExhausted: the path knows the exact length of X at event e, i.e. a range
+// loop over X was left through its exhaustion test after iterating every
+// element (a break or early continue-out leaves the upper bound unknown).
+func (p *Path) LoopExhausted(e *Event, X *Term) bool {
+	lo, hi := p.IntBoundsAt(e, call("len", X))
+	if hi == nil {
+		return false
+	}
+	if lo == nil {
+		return *hi == 0
+	}
+	return *lo == *hi
 }
